@@ -1,7 +1,7 @@
 (* C10 — Clean-up passes never change what the function computes (what may be deleted). *)
 From Avo Require Import Base.Prelude.
 From stdpp Require Import gmap.
-From Avo Require Import Base.MaskSet Model.IR Model.RegFile Model.Alloc Model.Cleanup Proofs.AllocProofs Proofs.CleanupProofs.
+From Avo Require Import Base.MaskSet Model.IR Model.RegFile Model.Alloc Model.Cleanup Model.NodeSem Proofs.AllocProofs Proofs.CleanupProofs Proofs.CleanupSem.
 Open Scope N_scope.
 Open Scope list_scope.
 
@@ -44,6 +44,93 @@ Theorem cleanup_never_dangles : forall ns l,
   In (NLabel l) (prune_labels (prune_jumps ns)) /\ In l (label_refs ns).
 Proof. exact cleanup_keeps_targets. Qed.
 Print Assumptions cleanup_never_dangles.
+
+(* THE PROPERTY, semantically.  Take any machine state S and any instruction semantics `exec` in which
+   (a) control only ever transfers to the label a branch names, (b) an unconditional branch to a
+   label changes nothing but the program counter, (c) a move the model classifies as an
+   architectural no-op changes nothing.  Then for every function body whose labels are distinct
+   (what the assembler demands; LabelTarget rejects the rest) the three clean-up passes, applied in
+   the order pass.Compile applies them, yield a body that computes the same thing: from every start
+   state it reaches exactly the same terminal outcomes (returned with state s / ran off the end /
+   jumped to an undefined label), and therefore also diverges on exactly the same start states.
+   The proof is a stutter simulation (Proofs/CleanupSem.v): every deleted node only falls through. *)
+Theorem cleanup_preserves_what_the_function_computes :
+  forall (S : Type) (exec : instr -> S -> S * ctl),
+  (forall i s s' l, exec i s = (s', CGoto l) -> is_branch i = true /\ target_label i = Some l) ->
+  (forall i l s, is_branch i = true -> is_conditional i = false -> target_label i = Some l -> exec i s = (s, CGoto l)) ->
+  (forall i s, move_is_architectural_noop i = true -> exec i s = (s, CNext)) ->
+  forall P out, List.NoDup (labels P) ->
+  (forall i, In i (instructions P) -> existsb (String.eqb (opcode i)) self_move_opcodes_fixed = true -> well_formed_move i) ->
+  prune_self_moves (prune_labels (prune_jumps P)) = OK out ->
+  same_behaviour S exec P out.
+Proof. exact cleanup_same_behaviour. Qed.
+Print Assumptions cleanup_preserves_what_the_function_computes.
+
+(* each pass on its own *)
+Theorem prune_jumps_preserves_behaviour : forall (S : Type) (exec : instr -> S -> S * ctl),
+  (forall i l s, is_branch i = true -> is_conditional i = false -> target_label i = Some l -> exec i s = (s, CGoto l)) ->
+  forall P, List.NoDup (labels P) -> same_behaviour S exec P (prune_jumps P).
+Proof. exact prune_jumps_same. Qed.
+Print Assumptions prune_jumps_preserves_behaviour.
+Theorem prune_labels_preserves_behaviour : forall (S : Type) (exec : instr -> S -> S * ctl),
+  (forall i s s' l, exec i s = (s', CGoto l) -> is_branch i = true /\ target_label i = Some l) ->
+  forall P, same_behaviour S exec P (prune_labels P).
+Proof. exact prune_labels_same. Qed.
+Print Assumptions prune_labels_preserves_behaviour.
+
+(* the hypotheses are satisfiable and the conclusion is not trivial: a counting machine, and a loop
+   in which each of the three passes deletes a node *)
+Module Example10.
+Definition mk (opc : string) (ops : list operand) (br cond term : bool) : instr :=
+  {| opcode := opc; suffixes := []; operands := ops; inputs := []; outputs := [];
+     is_terminal := term; is_branch := br; is_conditional := cond; cancelling := false; isa := [] |}.
+Definition exec (i : instr) (s : nat) : nat * ctl :=
+  if move_is_architectural_noop i then (s, CNext)
+  else match target_label i with
+       | Some l => if is_conditional i then (if (s <? 3)%nat then (s, CGoto l) else (s, CNext)) else (s, CGoto l)
+       | None => if is_terminal i then (s, CHalt) else (Datatypes.S s, CNext)
+       end.
+Definition rax := {| rid := 256; rmask := 15; rtag := 16 |}.
+Definition P : list node :=
+  [NLabel "top"; NInstr (mk "INCQ" [OReg rax] false false false); NInstr (mk "JMP" [OLabel "next"] true false false);
+   NLabel "next"; NInstr (mk "MOVQ" [OReg rax; OReg rax] false false false); NInstr (mk "NOP" [] false false false);
+   NLabel "unused"; NInstr (mk "JNE" [OLabel "top"] true true false); NInstr (mk "RET" [] false false true)]%string.
+Definition out : list node :=
+  [NLabel "top"; NInstr (mk "INCQ" [OReg rax] false false false);
+   NInstr (mk "NOP" [] false false false);
+   NInstr (mk "JNE" [OLabel "top"] true true false); NInstr (mk "RET" [] false false true)]%string.
+Lemma exec_goto : forall i s s' l, exec i s = (s', CGoto l) -> is_branch i = true /\ target_label i = Some l.
+Proof.
+  intros i s s' l. unfold exec. destruct (move_is_architectural_noop i); [discriminate|].
+  destruct (target_label i) as [t|] eqn:Et.
+  - assert (Hb : is_branch i = true) by (unfold target_label in Et; destruct (is_branch i); [reflexivity|discriminate]).
+    destruct (is_conditional i); [destruct (s <? 3)%nat|]; intro H; inversion H; subst; auto.
+  - destruct (is_terminal i); discriminate.
+Qed.
+Lemma exec_jmp : forall i l s, is_branch i = true -> is_conditional i = false -> target_label i = Some l -> exec i s = (s, CGoto l).
+Proof.
+  intros i l s Hb Hc Ht. unfold exec. rewrite Ht, Hc.
+  assert (E : move_is_architectural_noop i = false).
+  { unfold target_label in Ht. rewrite Hb in Ht. unfold move_is_architectural_noop. destruct (operands i) as [|[] r]; try discriminate. reflexivity. }
+  now rewrite E.
+Qed.
+Lemma exec_noop : forall i s, move_is_architectural_noop i = true -> exec i s = (s, CNext).
+Proof. intros i s H. unfold exec. now rewrite H. Qed.
+Example cleanup_example :
+  prune_self_moves (prune_labels (prune_jumps P)) = OK out /\ same_behaviour nat exec P out /\
+  run nat exec P 40 P 0%nat = Done 4%nat /\ run nat exec out 40 out 0%nat = Done 4%nat.
+Proof.
+  assert (E : prune_self_moves (prune_labels (prune_jumps P)) = OK out) by (vm_compute; reflexivity).
+  split; [exact E|]. split; [|split; vm_compute; reflexivity].
+  apply (cleanup_preserves_what_the_function_computes nat exec exec_goto exec_jmp exec_noop P out); [| |exact E].
+  - unfold P, labels. cbn. repeat constructor; cbn; intuition discriminate.
+  - intros i Hi Ho. unfold P, instructions in Hi. cbn in Hi. intuition (subst; try discriminate Ho). cbn. repeat split; intros; try discriminate; reflexivity.
+Qed.
+End Example10.
+Print Assumptions Example10.exec_goto.
+Print Assumptions Example10.exec_jmp.
+Print Assumptions Example10.exec_noop.
+Print Assumptions Example10.cleanup_example.
 
 (* the pinned pass deleted MOVL r,r and MOVQ X,X *)
 Example movl_self_move_refuted :
